@@ -270,6 +270,39 @@ func C08(r *ev.Run) {
 		r.Count(n, 0, n, n)
 		r.DistinctN += n
 	})
+	// (2b) special values of every fine field at every anchor, in both tiers:
+	// +-2^k and their neighbours, and the other format's 'invalid' markers
+	// (a strided sweep must not be the only thing between a single-value
+	// defect and the quick tier)
+	for _, sw := range sweeps {
+		var vals []int
+		for k := uint(0); k < 24; k++ {
+			for _, d := range []int{-1, 0, 1} {
+				vals = append(vals, 1<<k+d, -(1<<k)+d)
+			}
+		}
+		vals = append(vals, -16384, -2097152, -524288, -8388608, -8192, -512, -32768, 16383, 2097151)
+		for a := range anchors {
+			for _, v := range vals {
+				if v < sw.r.lo || v > sw.r.hi {
+					continue
+				}
+				k := cellCase{MSM7: sw.m7, Whole: anchors[a].w, Frac: anchors[a].f, FineRange: 5, FinePhase: -5, RoughRate: 7, FineRate: -7, Wavelength: lamL1, SignalID: 2}
+				switch sw.field {
+				case "range":
+					k.FineRange = v
+				case "phase":
+					k.FinePhase = v
+				case "roughrate":
+					k.RoughRate = v
+				case "finerate":
+					k.FineRate = v
+				}
+				run(k)
+				total++
+			}
+		}
+	}
 	// (3) boundary product
 	for _, m7 := range []bool{false, true} {
 		b := func(bits int) []int {
